@@ -201,8 +201,14 @@ impl Value {
             && let Some(new_list) = Self::get_value::<&InkList>(new_value)
             && new_list.items.is_empty()
         {
+            // An old value that belongs to no list has nothing to hand on
+            let old_origin_names = old_list.get_origin_names();
+            if old_origin_names.is_empty() {
+                return None;
+            }
+
             let retained = new_list.clone();
-            retained.set_initial_origin_names(old_list.get_origin_names());
+            retained.set_initial_origin_names(old_origin_names);
             return Some(Value::new::<InkList>(retained));
         }
         None
